@@ -35,6 +35,7 @@ import threading
 
 from circuits import BaseComponent, Event, handler
 from circuits.core.events import generate_events
+from circuits.core.manager import TimeoutError as CTimeoutError    # circuits' own class, not the builtin
 
 ID = 'C05'
 LEVEL = 'exploration'
@@ -557,7 +558,7 @@ def _run(ctx, mute):
                             try:
                                 yield w             # resumed by circuits when the called / awaited event is done
                                 how = 'resumed'
-                            except TimeoutError:    # ... or with TimeoutError when timeout= generate_events have passed
+                            except CTimeoutError:   # ... or with TimeoutError when timeout= generate_events have passed
                                 how = prev = 'timeout'
                                 ctx.stat('call-timed-out')
                             st['in_h'], st['cur_h'] = 1, g.eid
@@ -646,8 +647,10 @@ def _run(ctx, mute):
             leaves.append(type('Leaf', (Traced,), {})().register(ch.choice(comps, 'leaf-parent')))
     while len(root):          # drain the `registered` events before the experiment
         root.flush()
-    ctx.trace('program: %s' % '; '.join('h%d on C%d(channel %s)%s for %s prio %r' % (s['idx'], s['comp'], cchan[s['comp']], ' [generator]' if s['gen'] else '',
-                                                                            ','.join(s['names']), s['prio']) for s in slots))
+    # pulse: fire generate_events before every tick(), as a running manager does (it is what the timeouts of call()/wait() count)
+    pulse = ch.chance(1, 2, 'generate_events-pulse')
+    ctx.trace('program: %s%s' % ('[generate_events fired before every tick()] ' if pulse else '', '; '.join('h%d on C%d(channel %s)%s for %s prio %r' % (s['idx'], s['comp'], cchan[s['comp']], ' [generator]' if s['gen'] else '',
+                                                                            ','.join(s['names']), s['prio']) for s in slots)))
 
     # ---------------------------------------------------------------- history
     def after_op():
@@ -698,8 +701,6 @@ def _run(ctx, mute):
         else:
             do_fire(comps[node.firer], node, 0, False, '')
 
-    # pulse: fire generate_events before every tick(), as a running manager does (it is what the timeouts of call()/wait() count)
-    pulse = ch.chance(1, 2, 'generate_events-pulse')
     todo = list(roots)
     for _ in range(ch.randint(1, cfg['max_ops'], 'nops')):
         if ctx.violations:
